@@ -52,7 +52,12 @@ def mul (a b : Dec) : Dec := norm { neg := a.neg != b.neg, mant := a.mant * b.ma
 def cmpKey (a b : Dec) : Int × Int :=
   let (ma, mb, _) := align a b
   (toSigned a.neg ma, toSigned b.neg mb)
-def eq (a b : Dec) : Bool := let (x, y) := cmpKey a b; x == y
+/-- canonical key of the numeric value: normal form, with the two zeros identified -/
+def eqKey (d : Dec) : Bool × Nat × Int :=
+  let n := norm d
+  if n.mant == 0 then (false, 0, 0) else (n.neg, n.mant, n.exp)
+/-- `==` on floats (±0 equal): equality of canonical keys -/
+def eq (a b : Dec) : Bool := decide (eqKey a = eqKey b)
 def lt (a b : Dec) : Bool := let (x, y) := cmpKey a b; decide (x < y)
 def le (a b : Dec) : Bool := let (x, y) := cmpKey a b; decide (x ≤ y)
 
